@@ -58,6 +58,11 @@ def dispatch (op : String) (args : List String) : Option String :=
   match op with
   | "ecdh.derive" => some (opDerive args)
   | "ecdh.symmetric" => some (opSymmetric args)
+  -- history freedom: the second agreement of one ECDHer answers like the only agreement of a fresh one
+  | "ecdh.derive2" => some (
+      let (l, rest) := splitBar args
+      let (_r1, r2) := splitBar rest
+      opDerive (l ++ ["|"] ++ r2 ++ ["|", "same"]))
   | "ecdh.topublic" => some (opTopublic args)
   | "ecdh.compress" => some (opCompress args)
   | _ => none
